@@ -236,6 +236,10 @@ def corpus():
     for how in ("Attr", "TraitSet", "Ctor"):                                           # F22
         one(["DInt"], ["PInt", 3], ["PUndefined"], ["PInt", 4], how=how)
     one(["DRangeF", F(0.0), F(1.0), 0], ["PUndefined"])
+    # a stand-alone Map / PrefixMap and the unvalidated sentinel: stored, then post_setattr raises TraitError (c056106)
+    for how in ("Attr", "TraitSet", "Ctor"):
+        one(["DMap", [[S("a"), ["PInt", 1]], [["PInt", 1], ["PInt", 2]]]], S("a"), ["PUndefined"], ["PInt", 1], how=how)
+    one(["DPrefixMap", [[pv.W("yes"), ["PInt", 1]], [pv.W("no"), ["PInt", 0]]]], ["PUndefined"], S("y"))
     one(["DInt"], ["PIndexObj", ["Raises", "EValueError"]], ["PIndexObj", ["Raises", "ETypeError"]], ["PBool", True], how="TraitSet")
     one(["DFloat"], ["PInt", 10 ** 400], ["PFloatObj", ["Raises", "EValueError"]], ["PIndexObj", ["Returns", 10 ** 400]], how="Ctor")
     one(["DTuple", [["DInt"], ["DFloat"]]], ["PTuple", [["PInt", 1], ["PIndexObj", ["Raises", "EOverflowError"]]]],
